@@ -5,7 +5,7 @@ CONSTANTS
     SnapOrder <- Order2
     MaxRev = 3
     MaxOps = 1
-    MaxTasks = 30
+    MaxTasks = 36
     MaxFaults = 1
     KindOpts <- KAll
     TxnOpts <- BoolFT
